@@ -59,7 +59,11 @@ def _rates(draw, big):
             "shared_after": draw(st.sampled_from([None, None, "td_rates", "rates"])),
             "reassign": draw(st.sampled_from([None, None, 0, 1])),
             # the caller computes rates and tensors while other energy units are current
-            "calc_units": draw(st.sampled_from([None, None, "1/cm", "eV", "THz"]))}
+            "calc_units": draw(st.sampled_from([None, None, "1/cm", "eV", "THz"])),
+            # the tensor is obtained in operator form and converted to tensor form later, inside the eigenbasis
+            "tensor_route": draw(st.sampled_from(["tensor", "tensor", "operators-converted-in-eigenbasis"])),
+            # one site's bath is a composite: its overdamped function plus a weak underdamped mode (in that order)
+            "composite": draw(st.sampled_from([None, None, 0, 1]))}
 
 
 @st.composite
@@ -69,7 +73,9 @@ def _bath(draw):
             "ftype": draw(st.sampled_from(["OverdampedBrownian", "UnderdampedBrownian", "OverdampedBrownian",
                                            "UnderdampedBrownian", "B777-alternative", "CP29"])),
             "freq": draw(st.integers(100, 800)), "gamma": draw(st.integers(5, 60)),
-            "ft_units": draw(st.sampled_from([None, "1/cm", "eV", "THz"]))}
+            "ft_units": draw(st.sampled_from([None, "1/cm", "eV", "THz"])),
+            # the spectral density carries a temperature of its own, different from the one asked for
+            "sd_T_offset": draw(st.sampled_from([0, 100, -40]))}
 
 
 def strategy(tier):
@@ -198,9 +204,15 @@ def _check_rates(case, ctx):
     # ---- Redfield tensor, population elements in the exciton basis ----------------------------------
     def tensor():
         agg = the_aggregate()
+        if case.get("tensor_route") == "operators-converted-in-eigenbasis":
+            RT, ham = agg.get_RelaxationTensor(ta, relaxation_theory="standard_Redfield", as_operators=True)
+            with qr.eigenbasis_of(ham):
+                RT.convert_2_tensor()
+                return numpy.array(RT.data)
         RT, ham = agg.get_RelaxationTensor(ta, relaxation_theory="standard_Redfield")
         with qr.eigenbasis_of(ham):
             return numpy.array(RT.data)
+    ctx.label("tensor-route:" + case.get("tensor_route", "tensor"))
 
     def tensor_direct(sp, **kw):
         # the library's own construction pattern (get_RelaxationTensor does not pass a cut-off time on)
@@ -245,7 +257,36 @@ def _check_rates(case, ctx):
                                   w_cm=round((ev[b] - ev[a]) / orc.CM2INT, 1), N=n)
 
     # ---- Foerster rate matrix --------------------------------------------------------------------------
+    comp = case.get("composite")
+    comp = None if comp is None else comp % n
+    LAM_U = 15.0
+
     def foerster():
+        if comp is not None:
+            from quantarhei.qm import Operator, SystemBathInteraction, FoersterRateMatrix
+            from quantarhei.qm.corfunctions import CorrelationFunctionMatrix
+            time = qr.TimeAxis(t0, int(nt), dtt)
+            with qr.energy_units("1/cm"):
+                cfs = []
+                for i, b in enumerate(spec["bath"]):
+                    if i == comp:
+                        cfs.append(qr.CorrelationFunction(time, [gens.bath_params(b, T),
+                                                                 dict(ftype="UnderdampedBrownian", reorg=LAM_U, freq=400.0,
+                                                                      gamma=50.0, T=float(T))]))
+                    else:
+                        cfs.append(qr.CorrelationFunction(time, gens.bath_params(b, T)))
+            cm = CorrelationFunctionMatrix(time, n, n)
+            for i in range(n):
+                cm.set_correlation_function(cfs[i], [(i, i)])
+            ops = []
+            for i in range(n):
+                K = numpy.zeros((n + 1, n + 1)); K[i + 1, i + 1] = 1.0
+                ops.append(Operator(data=K))
+            sbi = SystemBathInteraction(ops, cm)
+            with qr.energy_units("int"):
+                ham = qr.Hamiltonian(data=gens.site_hamiltonian_int(spec).copy())
+            ctx.label("foerster:composite-bath")
+            return numpy.array(FoersterRateMatrix(ham, sbi).data)
         if case.get("reassign") is None:
             return numpy.array(gens.make_aggregate(qr, spec).get_FoersterRateMatrix().data)
         # the same system with a hand-made system-bath interaction in which one site first got another site's bath
@@ -281,8 +322,8 @@ def _check_rates(case, ctx):
             for b in range(a + 1, n):
                 if spec["J"][a][b] == 0:
                     continue
-                ea = (spec["E"][a] - spec["bath"][a]["reorg"]) * orc.CM2INT
-                eb = (spec["E"][b] - spec["bath"][b]["reorg"]) * orc.CM2INT
+                ea = (spec["E"][a] - spec["bath"][a]["reorg"] - (LAM_U if comp == a else 0.0)) * orc.CM2INT
+                eb = (spec["E"][b] - spec["bath"][b]["reorg"] - (LAM_U if comp == b else 0.0)) * orc.CM2INT
                 kab, kba = KF[a + 1, b + 1], KF[b + 1, a + 1]          # a <- b and b <- a
                 x = (ea - eb) / kT
                 # "within the accuracy of the numerical integration": the overlap integral must have converged on the
@@ -294,7 +335,16 @@ def _check_rates(case, ctx):
                 # relative quadrature error of the rate grows with the cancellation M/k.  Measured on 2185 pairs of the
                 # unchanged tree: |ratio deviation| <= 0.0038 * (M/k_ab + M/k_ba); allowed = 1 % + 0.006 * that sum
                 S = (M / kab + M / kba) if min(kab, kba) > 0 else float("inf")
-                if env[-1] < 1e-3 and S <= 40:
+                if comp is not None:
+                    # (the additional mode only lowers the modulus of the integrand, so M is an upper estimate; its
+                    # oscillation adds to the quadrature error: twice the model plus 3 %, inside a narrower window)
+                    if env[-1] < 1e-3 and S <= 20:
+                        ctx.bound("foerster-rates/detailed-balance", abs((kab / kba) / math.exp(-x) - 1.0),
+                                  0.05 + 0.012 * S, where="composite-bath", T=T, dE_cm=spec["E"][a] - spec["E"][b],
+                                  cancellation=round(S, 1))
+                    else:
+                        ctx.label("foerster-db:outside-quadrature-window")
+                elif env[-1] < 1e-3 and S <= 40:
                     ctx.bound("foerster-rates/detailed-balance", abs((kab / kba) / math.exp(-x) - 1.0), 0.01 + 0.006 * S, T=T,
                               dE_cm=spec["E"][a] - spec["E"][b], cancellation=round(S, 1))
                 else:
@@ -334,6 +384,21 @@ def _check_bath(case, ctx):
     if not ok:
         return
     w, J, w2, Cw = r
+    if case.get("sd_T_offset") and case["ftype"] in ("OverdampedBrownian", "UnderdampedBrownian"):
+        # the correlation function derived from a spectral density at temperature T is a function of J and T only: a
+        # temperature that the spectral density carries itself does not enter when another one is asked for
+        def derived(T_own):
+            with qr.energy_units("1/cm"):
+                sd = qr.SpectralDensity(ta, dict(params, T=float(T_own)))
+            cf = sd.get_CorrelationFunction(temperature=float(T))
+            return numpy.array(cf.data), float(cf.temperature)
+        ok1, a = guarded(ctx, "sd-to-cf", lambda: derived(T + case["sd_T_offset"]), case["ftype"])
+        ok2, b = guarded(ctx, "sd-to-cf", lambda: derived(T), case["ftype"])
+        if ok1 and ok2:
+            ctx.close("sd-to-cf/requested-temperature-decides", a[0], b[0], rtol=1e-9,
+                      scale=max(1e-300, float(numpy.max(numpy.abs(b[0])))), where=case["ftype"], T=T,
+                      T_of_density=T + case["sd_T_offset"])
+            ctx.close("sd-to-cf/temperature-attribute", a[1], float(T), rtol=1e-12, where=case["ftype"])
     # oddness on the symmetric part of the axis: find partner of each frequency.  The frequency axis is symmetric only
     # up to rounding (w[k] + w[kk] ~ 1e-13), and an underdamped mode whose damping is far below the grid spacing makes
     # J change by 1e5 of itself per unit frequency: the comparison allows for what the closed-form J changes between
